@@ -268,7 +268,10 @@ func (dc *DeploymentController) scale(ctx context.Context, deployment *apps.Depl
 	// deployment. If there is no active replica set, then we should scale up the newest replica set.
 	if activeOrLatest := deploymentutil.FindActiveOrLatest(newRS, oldRSs); activeOrLatest != nil {
 		if *(activeOrLatest.Spec.Replicas) == *(deployment.Spec.Replicas) {
-			return nil
+			// the size is right already, but the desired/max-replicas annotations must still be refreshed:
+			// otherwise isScalingEvent() reports a scaling event forever and the rollout never proceeds
+			_, _, err := dc.scaleReplicaSet(ctx, activeOrLatest, *(deployment.Spec.Replicas), deployment, "")
+			return err
 		}
 		_, _, err := dc.scaleReplicaSetAndRecordEvent(ctx, activeOrLatest, *(deployment.Spec.Replicas), deployment)
 		return err
